@@ -689,7 +689,7 @@ m('mulaccown-dot','C14',['MULACC-OWN'],'std/selector/multiplexer.go','''	out := 
 	for i := 0; i < len(a)-1; i++ {
 		out = api.MulAcc(out, a[i], api.Sub(b[i], b[len(b)-1]))
 	}
-	return out''',note='the accumulator of MulAcc starts as the caller's own variable')
+	return out''',note='the accumulator of MulAcc starts as the caller own variable')
 json.dump({'comment':'selftest mutants: each patch breaks one rule instance and must be detected by the listed rule(s) of its property; produced by tools/make_selftest.py','mutants':M}, open(os.path.join(root,'selftest','mutants.json'),'w'), indent=1)
 subprocess.run(['git','-C','/repo','worktree','remove','--force',WT],capture_output=True)
 print(len(M),'mutants')
